@@ -570,6 +570,8 @@ impl QueryRouter {
 
                     if has_locks || has_mutation || Self::needs_primary(query) {
                         self.active_role = Some(Role::Primary);
+                        // A plain read later in the same message must not undo this.
+                        visited_write_statement = true;
                     } else if !visited_write_statement {
                         // If we already visited a write statement, we should be going to the primary.
                         self.active_role = match self.primary_reads_enabled() {
